@@ -43,6 +43,7 @@ type harnessCfg struct {
 	Twin     string   `json:"twin"` // vacuity twin entry (must be violated)
 	Subst    map[string]string `json:"subst"` // program function -> harness stub executed in its place
 	NoValidate bool   `json:"no_validate"` // passing paths are not replayed natively (harness runs on stubs only the engine has)
+	ModelOnly  bool   `json:"model_only"`  // counterexamples cannot be replayed natively (environment model, e.g. a file system with crash points): they are re-executed concretely in the engine and reported from the model
 }
 
 type checkCfg struct {
@@ -278,7 +279,16 @@ func cmdCheck(args []string) int {
 			writeJSON(p, replayFile{Harness: v.Harness, Msg: v.Msg, Values: v.Draws, Params: params, Panic: v.Panic, Hang: v.Hang, Pos: v.Pos})
 			files = append(files, p)
 		}
-		if len(files) > 0 {
+		if len(files) > 0 && h.ModelOnly {
+			for j := range files {
+				hr.confirmed = append(hr.confirmed, files[j])
+				fmt.Printf("VIOLATION property=%s replay=%s\n", id, files[j])
+				fmt.Fprintf(os.Stderr, "[%s] %s: %s (model counterexample; the environment model of this harness has no native counterpart)\n", id, h.Func, res.Violations[j].Msg)
+				if exit == 0 {
+					exit = 1
+				}
+			}
+		} else if len(files) > 0 {
 			nres, err := nat.run(h.Pkg, files)
 			if err != nil {
 				engineErr = "native replay: " + err.Error()
